@@ -74,6 +74,9 @@ pub fn gen_base(rng: &mut Rng, cfg: &BaseCfg) -> (J, StdTable, Sel, Shape) {
     let mut n = cfg.min_lines + rng.below(cfg.max_lines - cfg.min_lines + 1);
     // size thresholds: many lines, many groups / distinct keys, many values per group
     if cfg.big_rate > 0 && rng.chance(1, cfg.big_rate) { n = cfg.big_lines / 2 + rng.below(cfg.big_lines / 2 + 1); dc.keys = *rng.pick(&[1usize, 3, 40, 300]); }
+    // order-insensitive aggregates over integers that are distinct but equal as doubles (few lines: sums stay inside 64 bits)
+    let big_ints = cfg.order_insensitive_only && n <= 40 && rng.chance(1, 6);
+    if big_ints { dc.big_ints = true; }
     let mut lines = std_lines(rng, &t, n, &dc);
     // empty lines, blanks and foreign text between the records (rows only where a DEFAULT makes them rows)
     if rng.chance(1, 5) { for _ in 0..(1 + rng.below(4)) { let at = rng.below(lines.len() + 1); lines.insert(at, rng.pick(&["", "", " ", "garbage", "{}", "k="]).to_string()); } }
@@ -81,7 +84,14 @@ pub fn gen_base(rng: &mut Rng, cfg: &BaseCfg) -> (J, StdTable, Sel, Shape) {
     let ecfg = ExprCfg { ill_typed: 0, max_depth: 2, ..Default::default() };
     let mut joined: Option<Vec<String>> = None;
     let mut sel = match shape {
-        Shape::Aggregate | Shape::JoinAggregate => gen_aggregate(rng, &t.schema, &AggCfg { expr: ecfg.clone(), order_insensitive_only: cfg.order_insensitive_only, allow_having: cfg.allow_having, allow_distinct: cfg.agg_distinct, allow_limit: false }),
+        Shape::Aggregate | Shape::JoinAggregate => {
+            let acfg = AggCfg { expr: ecfg.clone(), order_insensitive_only: cfg.order_insensitive_only, allow_having: cfg.allow_having, allow_distinct: cfg.agg_distinct, allow_limit: false };
+            let mut s = gen_aggregate(rng, &t.schema, &acfg);
+            // floating-point sums of squares of 2^53-sized numbers depend on the order of addition by more than any tolerance
+            // (and 2^62-sized sums overflow in some orders only): not part of the big-integer cases
+            if big_ints { for _ in 0..40 { let txt = s.text(Paren::Full); if !(txt.contains("stddev") || txt.contains("variance") || txt.contains("sum") || txt.contains("avg") || txt.contains(" * ") || txt.contains(" + ") || txt.contains("pow")) { break; } s = gen_aggregate(rng, &t.schema, &acfg); } }
+            s
+        }
         _ => { let mut s = gen_select(rng, &t.schema, &StmtCfg { expr: ecfg.clone(), allow_distinct: false, allow_limit: false, allow_star: true, max_limit: 0 }); if shape == Shape::Distinct { s.distinct = true; } s }
     };
     if shape == Shape::Join || shape == Shape::JoinAggregate {
